@@ -192,53 +192,29 @@ func (r *RegistryImpl) Begin(ctx context.Context, engine interface{}, readOnly b
 	}
 	resultCh := make(chan txResult, 1)
 
+	// The creating goroutine and the waiting caller race when the wait is
+	// given up. handoff decides the race: the goroutine delivers its result
+	// only while the caller has not abandoned the wait, otherwise it rolls the
+	// transaction back itself, so exactly one side owns a created transaction.
+	var handoff sync.Mutex
+	abandoned := false
+
 	// Start transaction in a goroutine
 	go func() {
-		var tx Transaction
-		var err error
+		tx, err := beginEngineTransaction(engine, readOnly)
 
-		// Check for different types of engines
-		if engine != nil {
-			// Just directly try to get a transaction, without complex type checking
-			// The only real requirement is that the engine has a BeginTransaction method
-			// that returns a transaction that matches our Transaction interface
-
-			// Get the method using reflection to avoid type compatibility issues
-			val := reflect.ValueOf(engine)
-			method := val.MethodByName("BeginTransaction")
-
-			if !method.IsValid() {
-				err = fmt.Errorf("engine does not have BeginTransaction method")
-				return
-			}
-
-			// Call the method
-			log.Debug("Calling BeginTransaction via reflection")
-			args := []reflect.Value{reflect.ValueOf(readOnly)}
-			results := method.Call(args)
-
-			// Check for errors
-			if !results[1].IsNil() {
-				err = results[1].Interface().(error)
-				return
-			}
-
-			// Get the transaction
-			txVal := results[0].Interface()
-			tx = txVal.(Transaction)
-		} else {
-			err = fmt.Errorf("nil engine provided to transaction registry")
-		}
-
-		select {
-		case resultCh <- txResult{tx, err}:
-			// Successfully sent result
-		case <-timeoutCtx.Done():
-			// Context timed out, but try to rollback if we got a transaction
+		handoff.Lock()
+		defer handoff.Unlock()
+		if abandoned {
+			// Nobody is waiting any more: do not leave a live transaction
+			// (and the transaction lock it holds) behind
 			if tx != nil {
 				tx.Rollback()
 			}
+			return
 		}
+		// Buffered channel and a single send: never blocks
+		resultCh <- txResult{tx, err}
 	}()
 
 	// Wait for result or timeout
@@ -268,8 +244,58 @@ func (r *RegistryImpl) Begin(ctx context.Context, engine interface{}, readOnly b
 		return txID, nil
 
 	case <-timeoutCtx.Done():
+		handoff.Lock()
+		abandoned = true
+		handoff.Unlock()
+
+		// The result may have been delivered just before the wait was
+		// abandoned; this call reports an error, so that transaction must not
+		// stay alive
+		select {
+		case result := <-resultCh:
+			if result.tx != nil {
+				result.tx.Rollback()
+			}
+		default:
+		}
 		return "", fmt.Errorf("transaction creation timed out: %w", timeoutCtx.Err())
 	}
+}
+
+// beginEngineTransaction calls engine.BeginTransaction(readOnly) via reflection
+func beginEngineTransaction(engine interface{}, readOnly bool) (Transaction, error) {
+	if engine == nil {
+		return nil, fmt.Errorf("nil engine provided to transaction registry")
+	}
+
+	// Just directly try to get a transaction, without complex type checking
+	// The only real requirement is that the engine has a BeginTransaction method
+	// that returns a transaction that matches our Transaction interface
+
+	// Get the method using reflection to avoid type compatibility issues
+	val := reflect.ValueOf(engine)
+	method := val.MethodByName("BeginTransaction")
+
+	if !method.IsValid() {
+		return nil, fmt.Errorf("engine does not have BeginTransaction method")
+	}
+
+	// Call the method
+	log.Debug("Calling BeginTransaction via reflection")
+	args := []reflect.Value{reflect.ValueOf(readOnly)}
+	results := method.Call(args)
+
+	// Check for errors
+	if !results[1].IsNil() {
+		return nil, results[1].Interface().(error)
+	}
+
+	// Get the transaction
+	tx, ok := results[0].Interface().(Transaction)
+	if !ok {
+		return nil, fmt.Errorf("engine BeginTransaction returned %T, which is not a Transaction", results[0].Interface())
+	}
+	return tx, nil
 }
 
 // Get retrieves a transaction by ID
